@@ -80,6 +80,30 @@ HOSTILE_ATOMS = list("ab1 _.-/:[],<>{}$#§→⊕∧|&+~%=;()\"\\'") + [
     "\n", "\t", "\u00e9", "e\u0301", "\U0001F600", "::", "//", "true", "null", "vs", "->", "<->", "```", "===", "---", "\r"]
 
 
+def nearbare():
+    """Strings one or two edits away from a shape the emitter writes bare (annotation, constructor, expression,
+    variable, dotted word, version, section reference): they sit on the boundary of the quoting decision, where the
+    emitter's patterns and the lexer's tokenisation have to agree."""
+    seg = st.one_of(WORD, st.sampled_from(["pre-", "a.b", "x-y", "v1.2", "A_", "-a", "a-", "_", "9z", "true", "vs", "null"]))
+    base = st.one_of(
+        st.builds(lambda a, bs: f"{a}<{','.join(bs)}>", seg, st.lists(seg, min_size=0, max_size=3)),
+        st.builds(lambda ws, ops: ws[0] + "".join(o + w for o, w in zip(ops, ws[1:])),
+                  st.lists(seg, min_size=2, max_size=3), st.lists(st.sampled_from(OPS), min_size=2, max_size=2)),
+        st.builds(lambda a, b: f"${a}:{b}", seg, seg),
+        st.builds(lambda a, b, c: f"{a}.{b}-{c}", seg, seg, seg),
+        st.builds(lambda a: "§" + a, seg),
+        st.sampled_from(["1.2.3", "1.0-beta", "1.0+b", "6.02e+23", "1e5", "-0", "2.5E-7", "1.", ".5", "1.2.3-", "0x1F"]),
+    )
+    edit = st.tuples(st.integers(0, 40), st.sampled_from(list("-.,<>_:$§→∧ ") + ["", "", "<>", "::", ",,"]), st.booleans())
+
+    def apply(b, e):
+        pos, ins, replace = e
+        pos = pos % (len(b) + 1)
+        return b[:pos] + ins + b[pos + (1 if replace else 0):]
+
+    return st.builds(lambda b, e1, e2, two: apply(apply(b, e1), e2) if two else apply(b, e1), base, edit, edit, st.booleans())
+
+
 def str_value(avoid: frozenset = frozenset()):
     """Labelled string classes. `bare` spellings are decided by the renderers from `cls`."""
     S = lambda cls: (lambda s: {"v": "str", "s": nfc(s), "cls": cls})  # noqa: E731
@@ -105,6 +129,7 @@ def str_value(avoid: frozenset = frozenset()):
                          "```", "$", "§", "<x>", "{y}", "a,b", "trailing ", " leading", "café", "é",
                          "\U0001F600 smile", "ünïcödé"]).map(S("special")),
         hostile.map(S("hostile")), hostile.map(S("hostile")),
+        nearbare().map(S("nearbare")), nearbare().map(S("nearbare")),
     ]
     return st.one_of(*classes)
 
@@ -558,7 +583,7 @@ def features(doc) -> set[str]:
 def nontrivial(doc) -> bool:
     f = features(doc)
     return bool(f & {"depth>=2", "comments", "v_list", "v_int", "v_float", "v_bool", "v_null", "v_holo", "v_zone",
-                     "str_expr", "str_annotation", "str_hostile", "str_special"})
+                     "str_expr", "str_annotation", "str_hostile", "str_special", "str_nearbare"})
 
 
 # ---------------------------------------------------------------------------------------------- shrinking
